@@ -172,18 +172,37 @@ func fieldLoad(v ssa.Value) (base ssa.Value, fld *types.Var, ok bool) {
 			return nil, nil, false
 		}
 		if fa, ok := x.X.(*ssa.FieldAddr); ok {
-			return fa.X, fieldOfAddr(fa), true
+			if f := fieldOfAddr(fa); f != nil {
+				return fa.X, f, true
+			}
+			return nil, nil, false
 		}
 	case *ssa.Field:
-		st := x.X.Type().Underlying().(*types.Struct)
+		if x.X == nil || x.X.Type() == nil {
+			return nil, nil, false
+		}
+		st, ok := x.X.Type().Underlying().(*types.Struct)
+		if !ok || x.Field >= st.NumFields() {
+			return nil, nil, false
+		}
 		return x.X, st.Field(x.Field), true
 	}
 	return nil, nil, false
 }
 
 func fieldOfAddr(fa *ssa.FieldAddr) *types.Var {
-	pt := fa.X.Type().Underlying().(*types.Pointer)
-	st := pt.Elem().Underlying().(*types.Struct)
+	// synthetic nodes (derived facts over helper bodies) may carry an operand whose type cannot be recovered
+	if fa == nil || fa.X == nil || fa.X.Type() == nil {
+		return nil
+	}
+	pt, ok := fa.X.Type().Underlying().(*types.Pointer)
+	if !ok {
+		return nil
+	}
+	st, ok := pt.Elem().Underlying().(*types.Struct)
+	if !ok || fa.Field >= st.NumFields() {
+		return nil
+	}
 	return st.Field(fa.Field)
 }
 
